@@ -186,11 +186,15 @@ pub fn div_2x1_mg10(u: u128, d: u64, v: u64) -> (u64, u64) {
     let q1 = ((q >> 64) as u64).wrapping_add(1);
     let r = (u as u64).wrapping_sub(q1.wrapping_mul(d));
     let (q1, r) = if r > q0 {
+        #[cfg(recmo_uint_verif)]
+        crate::verif_hooks::hit(6);
         (q1.wrapping_sub(1), r.wrapping_add(d))
     } else {
         (q1, r)
     };
     let (q1, r) = if unlikely(r >= d) {
+        #[cfg(recmo_uint_verif)]
+        crate::verif_hooks::hit(7);
         (q1.wrapping_add(1), r.wrapping_sub(d))
     } else {
         (q1, r)
@@ -265,10 +269,14 @@ pub fn div_3x2_mg10(u21: u128, u0: u64, d: u128, v: u64) -> (u64, u128) {
     let mut r = u128::join(r1, u0).wrapping_sub(t).wrapping_sub(d);
     let mut q1 = q.high().wrapping_add(1);
     if r.high() >= q.low() {
+        #[cfg(recmo_uint_verif)]
+        crate::verif_hooks::hit(8);
         q1 = q1.wrapping_sub(1);
         r = r.wrapping_add(d);
     }
     if unlikely(r >= d) {
+        #[cfg(recmo_uint_verif)]
+        crate::verif_hooks::hit(9);
         q1 = q1.wrapping_add(1);
         r = r.wrapping_sub(d);
     }
